@@ -197,7 +197,7 @@ func runHist(ci interface{}, s *vkit.Stats) error {
 		case "gc":
 			// collections and heap reuse while variables are mocked: the saved pre-mock value is goom's to keep alive
 			vkit.GC()
-			vkit.ChurnSmall(3000)
+			vkit.ChurnSmall(1500)
 			for _, x := range st {
 				if x.mocked {
 					s.Class("gc-while-a-variable-is-mocked")
